@@ -152,3 +152,27 @@ def disjoint_pieces(pr, dl):
             out.append((reg, v))
         earlier = ("or", earlier, f)
     return out
+
+
+def iterators_in(v):
+    """the numpy.nditer loops a value is computed by: iterator nodes in its cone (through an operand the iterator
+    allocated) and the iterators whose chunks of supplied operands it reads"""
+    from ..ir import walk as _walk
+    out = {}
+    for n in _walk([v]):
+        if n.op == "NdIter":
+            out[n.id] = n
+        elif n.op == "NdChunk" and n.extra and n.extra.get("nditer") is not None:
+            out[n.extra["nditer"].id] = n.extra["nditer"]
+    return list(out.values())
+
+
+def is_iterator_output(I, b0, its, st=None):
+    """b0 is the array an nditer loop fills: allocated by the iterator (operand None) or supplied to it"""
+    if b0.op == "NdAlloc":
+        return True
+    for it in its:
+        for o in (it.extra or {}).get("operands", ()):
+            if o.op != "NdAlloc" and (o is b0 or (st is not None and I.res(o, st) is b0) or I.g.vn(o) == I.g.vn(b0)):
+                return True
+    return False
